@@ -46,6 +46,7 @@ def value_text(v) -> str:
 def gen_history(ctx, text):
     rng = ctx.rng
     ops = []
+    ident_body = text.rstrip().endswith("in\nbody")
     for _ in range(rng.randint(1, 8 if ctx.quick else 20)):
         r = rng.random()
         depth = 0 if rng.random() < 0.7 else 1
@@ -58,6 +59,9 @@ def gen_history(ctx, text):
             ops.append(("set", keys, k if "." not in k else "zz", rng.choice(PYVALS)))
         elif r < 0.85:
             ops.append(("del", keys, k))
+        elif ident_body and r < 0.93:
+            # the document reaches its set through a let-bound name: rebind that name
+            ops.append(("topscopeset", "body", rng.choice([{"k": 1}, {"j": "2", "bar": 2}, {}])))
         elif r < 0.9:
             ops.append(("scopeget", k))
         elif r < 0.96:
@@ -84,7 +88,7 @@ def run_history(ctx, text, ops, info, reqs_out):
     vids = dm.Ids()
     vids.n = 500000
     recs = []
-    model_keys = None
+    model_stopped = False
     for op in ops:
         before = src.rebuild()
         tree_before = ep.safe_tree(before)
@@ -104,6 +108,9 @@ def run_history(ctx, text, ops, info, reqs_out):
                         m[op[2]] = mk_value(op[3])
                     else:
                         del m[op[2]]
+            elif op[0] == "topscopeset":
+                src.expr.scope[op[1]] = mk_value(op[2])
+                tgt = src._resolve_target_set()
             else:
                 sc = tgt.scope
                 if op[0] == "scopeget":
@@ -115,8 +122,11 @@ def run_history(ctx, text, ops, info, reqs_out):
         except Exception as exc:  # noqa: BLE001
             res = dm.exc_class(exc)
             exc_s = f"{type(exc).__name__}: {exc}"
-        # model request
-        if op[0] == "get":
+        # model request (the model has no notion of a target reached through a let-bound name:
+        # the correspondence of such a history stops before the rebinding)
+        if op[0] == "topscopeset" or model_stopped:
+            model_stopped = True
+        elif op[0] == "get":
             req.append(["getitem", [hx(x) for x in op[1]], hx(op[2])])
         elif op[0] == "set":
             req.append(["setitem", [hx(x) for x in op[1]], hx(op[2]), value_node(mk_value(op[3]), vids)])
@@ -137,7 +147,7 @@ def run_history(ctx, text, ops, info, reqs_out):
         except Exception as exc:  # noqa: BLE001
             snap = ["snapshot-raised", type(exc).__name__]
         recs.append({"op": op, "res": res, "exc": exc_s, "before": before, "after": after, "snap": snap,
-                     "tree_before": tree_before, "got": got})
+                     "tree_before": tree_before, "got": got, "modelled": not model_stopped})
     reqs_out.append((req, recs, text, ops))
     # --------- oracle on the implementation (a history is judged up to its first failure: after
     # one, text and mapping have diverged and everything later is a consequence)
@@ -151,6 +161,12 @@ def run_history(ctx, text, ops, info, reqs_out):
         ta = ep.safe_tree(r["after"]) if not r["after"].startswith("<rebuild raised") else None
         if r["after"].startswith("<rebuild raised"):
             ctx.fail({"clause": "rebuild-raises", "op": op[0]}, inp, f"after {op!r} rebuild() raised: {r['after']}")
+            continue
+        if op[0] == "topscopeset":
+            want = {k: (str(v) if isinstance(v, int) else '"' + v + '"') for k, v in op[2].items()}
+            if r["res"] != "ok" or ta != want:
+                ctx.fail({"clause": "rebind-target", "op": op[0]}, {**inp, "after": r["after"]},
+                         f"after rebinding the let-bound body the text reads {ta!r}, expected {want!r}")
             continue
         if op[0] in ("scopeget", "scopeset", "scopedel") or tb is None or isinstance(tb, tuple):
             if r["res"] not in ("ok", "key", "type", "value"):
@@ -246,6 +262,9 @@ def stream(ctx):
             texts.append((text, info))
     if ctx.quick:
         texts = [t for i, t in enumerate(texts) if (i + ctx.seed) % 3 == 0]
+    for body in ["{ foo = 1; }", "{\n  foo = 1;\n  a = { k = 1; };\n}", "{ }"]:
+        for rep in range(6 if ctx.quick else 60):
+            texts.append((f"let\n  body = {body};\nin\nbody", {"wrapper": "ident-body"}))
     for _ in range(2500 if ctx.quick else 30000):
         t, info = docs.gen_doc(ctx.rng)
         if info.get("class") == "editable":
@@ -285,7 +304,7 @@ def run(ctx: fw.Ctx):
             if bad <= 5:
                 ctx.tie_break("correspondence", f"model rejected the request: {rep}", doc=text)
             continue
-        for r, m in zip(recs, rep[1:]):
+        for r, m in zip([x for x in recs if x["modelled"]], rep[1:]):
             mr = "ok" if m[0] == "ok" else m[1]
             md = dm.canon(m[-1])
             ctx.corr_checked += 1
